@@ -1,7 +1,7 @@
 (* C06 — A refused manipulation changes nothing; calls on live nodes do not panic.
    Pinned statements only.  Model: Model/Store.v, Model/Manip.v (src/manipulation.rs, src/nodemap/core.rs). *)
 From Coq Require Import List NArith.
-From XotV Require Import Model.Base Model.Zipper Model.Access Model.Store Model.Manip Proofs.ManipProofs.
+From XotV Require Import Model.Base Model.Zipper Model.Access Model.Store Model.Manip Proofs.ManipProofs Proofs.InvSteps Proofs.Atomic.
 Import ListNotations.
 Open Scope N_scope.
 
@@ -10,6 +10,16 @@ Theorem C06_refusal_atomic_direct :
   forall st o st' e, nested_op o = false -> mstep st o = (st', MErr e) -> st' = st.
 Proof. exact refusal_atomic_direct. Qed.
 Print Assumptions C06_refusal_atomic_direct.
+
+(* EVERY call of the node-level API that returns an error leaves the store exactly as it was, in every good state (every
+   state reachable by C04_every_reachable_store_is_good): also replace, element_wrap and new_document_with_element, which
+   call other operations half-way — once their own validation has passed, the inner append / prepend / insert_after cannot
+   be refused (Proofs/Atomic.v: the argument checks are re-established in the intermediate states from the paths and
+   values that the detach / creation steps leave untouched) *)
+Theorem C06_refusal_atomic :
+  forall st o st' e, Good st -> mstep st o = (st', MErr e) -> st' = st.
+Proof. exact refusal_atomic. Qed.
+Print Assumptions C06_refusal_atomic.
 
 (* replace: an error either leaves the state untouched or comes from an inner call after full validation *)
 Theorem C06_replace_refusal_partial :
